@@ -191,6 +191,74 @@ def _experiment(args):
     return {"name": name, "k": k, "after": after, "died": died, "rec": rec, "broken": broken, "notes": notes[:5]}
 
 
+SYSCALLS = "pwrite64,pwritev,write,unlink,unlinkat,fsync,fdatasync,ftruncate"
+
+
+def _strace(work, name, k, call=None):
+    import subprocess
+    import sys
+    env = dict(os.environ, PYTHONPATH=common.VERIF, PYTHONDONTWRITEBYTECODE="1")
+    log = work + ".strace"
+    cmd = ["strace", "-o", log, "-P", work, "-P", work + "-journal", "-e", "trace=" + SYSCALLS]
+    if k:
+        cmd += ["-e", "inject=%s:signal=KILL:when=%d" % (call, k)]      # strace counts per system call
+    cmd += [sys.executable, "-m", "harness.c09child", work, name]
+    p = subprocess.run(cmd, cwd=common.VERIF, env=env, stdout=subprocess.PIPE, stderr=subprocess.STDOUT, timeout=300)
+    n = {}
+    try:
+        with open(log) as f:
+            for line in f:
+                c = line.split("(")[0]
+                if "(" in line and c in SYSCALLS.split(","):
+                    n[c] = n.get(c, 0) + 1
+        os.unlink(log)
+    except OSError:
+        pass
+    return p, n
+
+
+def _syscall_count(args):
+    name, base = args
+    work = os.path.join(common.scratch(), "c09_sysn_%s.db" % name)
+    shutil.copyfile(base, work)
+    p, n = _strace(work, name, 0)
+    for sfx in ("", "-journal"):
+        try:
+            os.unlink(work + sfx)
+        except OSError:
+            pass
+    if p.returncode != 0:
+        return name, {}, p.stdout.decode()[-400:]
+    return name, n, ""
+
+
+def _syscall_crash(args):
+    """The process is killed (SIGKILL injected by strace) on entering the k-th write-side system call that touches the
+    database file or its rollback journal: a crash INSIDE SQLite's commit (journal half written, database pages half
+    written, journal not yet deleted), which no SQL-level hook can reach."""
+    name, base, call, k = args
+    work = os.path.join(common.scratch(), "c09_sys_%s_%s_%d.db" % (name, call, k))
+    shutil.copyfile(base, work)
+    p, _ = _strace(work, name, k, call)
+    died = p.returncode in (137, -9)
+    if not died:
+        o = {"name": name, "k": k, "call": call, "error": "child exit %s instead of being killed: %s" % (p.returncode, p.stdout.decode()[-300:])}
+    else:
+        journal = os.path.exists(work + "-journal")
+        broken, notes = fresh_check(work)          # a fresh server first: it is what recovers a hot journal
+        try:
+            rec = dump(work)
+        except Exception as e:
+            rec, broken, notes = [], broken + 1, notes + ["cannot read the file: %r" % (e,)]
+        o = {"name": name, "k": k, "call": call, "died": True, "rec": rec, "broken": broken, "notes": notes[:5], "journal": journal}
+    for sfx in ("", "-journal", "-wal", "-shm"):
+        try:
+            os.unlink(work + sfx)
+        except OSError:
+            pass
+    return o
+
+
 def random_kills(run, base, n, seed):
     """SIGKILL at random instants during a workload; every acknowledged creation must survive and the
     file must stay consistent."""
@@ -306,6 +374,29 @@ def check(run, tier):
         recs.append({"id": "%s@acked" % name, "events": inf["events"], "full": inf["events"], "pre": pre, "post": inf["post"],
                      "posts": inf["posts"], "nitems": inf["nitems"],
                      "rec": inf["post"], "acked": True, "broken": 0, "notes": []})
+    # crashes inside SQLite's commit: killed at every write-side system call on the database / journal
+    names = [n for n, _ in operations()]
+    if quick:
+        names = [n for n in names if n in ("Create", "CreateKeyPair", "RegisterOpaque", "Destroy", "ModifyAttribute",
+                                           "DeleteGroup", "Activate", "BatchCreateActivate")]
+    with multiprocessing.Pool(common.NCPU) as pool:
+        counts = pool.map(_syscall_count, [(n, base) for n in names], chunksize=1)
+        nsys = {}
+        for n, c, why in counts:
+            if sum(c.values()) < 2:
+                raise common.MachineryFailure("C09 system-call leg: %s made %s write-side system calls: %s" % (n, c, why))
+            nsys[n] = c
+        souts = pool.map(_syscall_crash, [(n, base, call, k) for n in names for call in sorted(nsys[n])
+                                          for k in range(1, nsys[n][call] + 1)], chunksize=1)
+    for o in souts:
+        if "error" in o:
+            raise common.MachineryFailure("C09 system-call leg: %s/%s#%s: %s" % (o["name"], o["call"], o["k"], o["error"]))
+        inf = info[o["name"]]
+        recs.append({"id": "%s@sys:%s#%d" % (o["name"], o["call"], o["k"]), "events": inf["events"], "full": inf["events"], "pre": pre,
+                     "post": inf["post"], "posts": inf["posts"], "nitems": inf["nitems"], "rec": o["rec"], "acked": False,
+                     "broken": o["broken"], "notes": o["notes"] + (["hot journal present"] if o["journal"] else [])})
+        run.case((o["name"], "sys", o["call"], o["k"]))
+    run.extra["write_syscalls_per_operation"] = nsys
     path = os.path.join(common.scratch(), "c09.json")
     json.dump(recs, open(path, "w"))
     cfg = tlc.write_cfg("TraceC09.cfg", "SPECIFICATION Spec\nCHECK_DEADLOCK FALSE\n")
@@ -317,7 +408,8 @@ def check(run, tier):
     for v in r2.tag("V"):
         x = by[v["id"]]
         for c in v["clauses"]:
-            run.violation(c, {"op": v["id"].split("@")[0], "point": "after-commit" if "after" in v["id"] else "before-commit"},
+            run.violation(c, {"op": v["id"].split("@")[0], "point": "after-commit" if "after" in v["id"] else
+                              "inside-sqlite-commit" if "@sys" in v["id"] else "before-commit"},
                           {"experiment": v["id"], "events_before_crash": x["events"], "all_events": x["full"],
                            "rows_only_in_recovered": sorted(set(x["rec"]) - set(x["pre"]) - set(x["post"]))[:10],
                            "rows_missing_vs_post": sorted(set(x["post"]) - set(x["rec"]))[:10], "problems": x["notes"]})
